@@ -35,5 +35,6 @@ CONSTANTS
   NegScalars = {1, 2}
   BuildMode = TRUE
   AllOrders = FALSE
+  EmitOn = TRUE
 INVARIANTS TypeOK ImplMatchesRef AggPartition AggBounds KCount NameDropped BoolIsZeroOne SetLaws Commutes Emit
 CHECK_DEADLOCK FALSE
